@@ -72,7 +72,7 @@ def score_profile(rng, L=None, k=None, violate=None):
     voted = names if rng.random() < 0.7 else names[:-1]
     nb = rng.choice([1, 2, 3, 4, 6])
     L = Fraction(L) if L is not None else Fraction(1)
-    palette = [Fraction(0), L, L, L / 2, L / 3, Fraction(1), Fraction(1, 2)]
+    palette = [Fraction(0), L, L, L / 2, L / 3, Fraction(1), Fraction(1, 2), L / 5000, L * Fraction(999983, 1000000)]
     ballots = []
     for _ in range(nb):
         while True:
